@@ -25,6 +25,14 @@ CHECKS = {
          "default_in_place on every length and four prior contents: reads the reference default (zero leaves, empty containers, #[default] variant), validates, size() is the extent of that state, image independent of prior contents under the padding mask, equal to Default::default() for sized types."),
  "C05": ("model_checking", "emplace+hist", "6.C05", "explicit-state BFS (stateright) over byte images reachable by in-place operations + exhaustive construction sweep; size() compared with the reference extent in every state",
          "At every constructed value (emplace sweep) and every state of the history graphs (push/pop/truncate/assign/nested edits from every reachable state): size() equals the reference extent, is within the buffer, and the first size() bytes re-map to the same content and size."),
+ "C07": ("model_checking", "io_explore+io_loom", "6.C07", "stateless choice-sequence DFS with iterative deviation bounding over every write-chunk and read-chunk size on the real blocking Sender/Receiver (unbounded for short streams), plus loom exploration of the two real threads over a Mutex+Condvar ring",
+         "Every composition of the stream into write chunks and into read chunks (all of them for short streams, all with <= 2/3 deviations from 'as much as fits' beyond), for every message sequence up to length 2/3 over 3-4 values of 12 message types and several buffer capacities: sink bytes equal the images, the receiver yields exactly the sent sequence then Closed, never panics. loom explores real thread interleavings (preemption bound 2/3) to confirm the factorisation into independent write and read scripts."),
+ "C08": ("model_checking", "io_explore", "6.C08", "stateless choice-sequence DFS with iterative deviation bounding over pipe chunk sizes, spurious Pending results, flush Pending and the poll order of the two tasks, on the real async Sender/Receiver under an owned single-threaded executor with strict wake discipline",
+         "Two real tasks over a bounded in-memory pipe (capacities 1,2,3,S,2S): every placement of Pending, every chunking, every poll order within the deviation bound (unbounded for tiny streams): same delivery oracle as C07; every future completes (no deadlock under strict wake discipline, no poll horizon overrun); when send completes the pipe has accepted exactly the message bytes and has been flushed."),
+ "C09": ("fault_enumeration", "io_explore", "6.C09", "exhaustive enumeration of fault scripts (each pipe call may fail with each error kind, return 0 / EOF, once or forever) combined with chunk deviations, on the real blocking and async senders and receivers",
+         "Every placement of up to 2/3 faults at every pipe call index (including the first call of every message and mid-message), transient and persistent, combined with chunk deviations: the pending operation returns an error within the call horizon (a loop that never returns is made observable by the scripted pipe), the sink holds whole messages plus at most one partial with nothing after it, a receive retried after a transient error yields the remaining messages exactly once each."),
+ "C10": ("model_checking", "io_explore", "6.C10", "stateless choice-sequence DFS over every chunking of enumerated hostile byte streams (raw strings, mutated/truncated valid streams, oversized length fields) fed to the real blocking and async receivers; expected verdict from the reference decoder",
+         "Every enumerated hostile stream under every chunking (all for short streams, <= 2 deviations beyond): each recv terminates with a message, Parse, a read error (incl. OutOfMemory) or Closed; no panic, no spin; every message handed out lies inside the bytes received and decodes to the reference value; dropping the guard never consumes more than was received; complete-but-malformed content gives Parse."),
  "C11": ("model_checking", "hist", "6.C11", "explicit-state BFS (stateright) on the real FlatVec/FlatString; every transition is one real call compared with a Vec/String model with fixed capacity",
          "For every (element, length type) pair of the catalog and every single buffer length in range: the complete graph of states reachable with the operation alphabet (push, pop, push_slice, extend, truncate, clear, remove, swap_remove, resize, element writes, reverse / push(char), push_str, clear, uppercase) is explored to closure; results, len, capacity, contents, size(), validity and re-mapping are compared with the model after every step; one configuration has capacity above the length type's maximum."),
  "C12": ("model_checking", "hist", "6.C12", "explicit-state BFS (stateright) on the real FlexVec; every transition is one real call compared with a Vec<Value> model whose geometry is re-derived from the image by the reference decoder",
@@ -51,7 +59,7 @@ for pid, (cat, engine, ref, tech, text) in sorted(CHECKS.items()):
         "replay_cmd_template": "./check --replay {path}",
         "engine": engine,
         "level_claimed": {"category": cat, "text": text, "design_ref": "DESIGN.md §" + ref},
-        "level_note": MC_NOTE if cat == "model_checking" else SWEEP_NOTE,
+        "level_note": MC_NOTE if cat in ("model_checking", "fault_enumeration") else SWEEP_NOTE,
         "technique": tech,
     })
 na = [{"property_id": p["id"], "reason": "check not built yet (work in progress; see DESIGN.md)"} for p in props if p["id"] not in CHECKS]
@@ -64,6 +72,8 @@ m = {
   {"name": "emplace", "path": "crates/engines/src/bin/emplace.rs", "serves_properties": ["C03", "C15", "C17", "C20"], "kind_free_text": "E1 exhaustive product sweep over emplacements"},
   {"name": "hist", "path": "crates/engines/src/bin/hist.rs", "serves_properties": ["C05", "C11", "C12", "C13", "C14", "C18"], "kind_free_text": "E2 explicit-state search (stateright BFS) over byte images, every transition a real library call vs refmodel::model"},
   {"name": "portable", "path": "crates/engines/src/bin/portable.rs", "serves_properties": ["C16"], "kind_free_text": "E1 exhaustive sweep over portable scalar values and pairs vs native arithmetic"},
+  {"name": "io_explore", "path": "crates/ioeng/src/bin/io_explore.rs", "serves_properties": ["C07", "C08", "C09", "C10"], "kind_free_text": "E3 stateless choice-sequence DFS with deviation bounding over pipe answers / Pending / faults / poll order, real flatty-io code"},
+  {"name": "io_loom", "path": "crates/ioeng/src/bin/io_loom.rs", "serves_properties": ["C07"], "kind_free_text": "E4 loom exploration of the real blocking sender/receiver threads"},
   {"name": "layout", "path": "crates/engines/src/bin/layout.rs", "serves_properties": ["C04"], "kind_free_text": "E1 exhaustive product sweep over shapes x lengths x values"},
  ],
  "checks": checks,
